@@ -287,5 +287,17 @@ def setCell (k : Kernel) (c : Nat) (hfs : List Nat) : Kernel :=
 def spanVertCount (k : Kernel) (hfs : List Nat) : Nat :=
   (toSet ((hfs.flatMap k.hfHes).flatMap (fun he => [k.fromV he, k.toV he]))).length
 
+/-- no two halfedges of the given halffaces run between the same ordered pair of vertices (4614b67: guard of the
+    tetrahedral `add_cell(halffaces)` override) -/
+def noParallel (k : Kernel) (hfs : List Nat) : Bool :=
+  decide (((hfs.flatMap k.hfHes).map (fun h => (k.fromV h, k.toV h))).Nodup)
+
+/-- the two halffaces of each of the three axes (positions 2a, 2a+1) share no vertex (7800c85: guard of the
+    topology-checked hexahedral `add_cell(halffaces)` on the list it is about to store) -/
+def oppPairsDisjoint (k : Kernel) (hfs : List Nat) : Bool :=
+  [0, 1, 2].all (fun a =>
+    let front := (k.hfHes (hfs.getD (2 * a) 0)).map k.fromV
+    ((k.hfHes (hfs.getD (2 * a + 1) 0)).map k.fromV).all (fun v => !front.contains v))
+
 end Kernel
 end OVM
